@@ -135,11 +135,19 @@ Judge(t) ==
                   j \in {j \in Idx(t) : t.events[j].ev = "c.new" /\ t.events[j].v = "client"
                                         /\ ~RegisteredBefore(t, t.events[j].h, j) /\ ~AutoBefore(t, t.events[j].h, j)}}
     IN  b6 \cup b8 \cup b13 \cup b15 \cup HubTrust(t) \cup (IF t.settled THEN b1 \cup b2 \cup b3 \cup b4 \cup b5 \cup b7 \cup b9 \cup b10 \cup b11 \cup b12 \cup b14 ELSE {})
+\* known finding C11/setup-after-the-end-was-reported: a close from another goroutine (Shutdown, Unregister, ...) that falls
+\* between the completing handler's decision and its SetupRemoteDevice call - the connection's own history shows the closed
+\* report BEFORE the set-up
+SetupAfterClosed(t, h) ==
+    \E n \in 1..Len(t.conns) : /\ t.conns[n].h = h
+                               /\ \E i, j \in 1..Len(t.conns[n].evs) : i < j /\ t.conns[n].evs[i].k = "closed" /\ t.conns[n].evs[j].k = "setup"
+KfOf(t, k) == IF k[1] = "C11" /\ k[2] = "last-word-setup-although-nothing-registered" /\ SetupAfterClosed(t, k[3])
+              THEN {"setup-after-closed"} ELSE {}
 Init == l = 0
 Next == /\ l < Len(Trace)
         /\ l' = l + 1
         /\ LET t == Trace[l + 1]
-           IN  /\ \A k \in Judge(t) : PrintT(<<"MON", ToJson([id |-> t.id, i |-> 0, key |-> k, kf |-> {}])>>)
+           IN  /\ \A k \in Judge(t) : PrintT(<<"MON", ToJson([id |-> t.id, i |-> 0, key |-> k, kf |-> KfOf(t, k)])>>)
                /\ \A n \in 1..Len(t.conns) : \A b \in JudgeConn(t, t.conns[n]) :
                       PrintT(<<"MON", ToJson([id |-> t.id, i |-> b.i, conn |-> t.conns[n].c, key |-> b.key, kf |-> IF b.par THEN {"par"} ELSE {}])>>)
 Spec == Init /\ [][Next]_l
